@@ -1,6 +1,7 @@
 import GrinVerif.Drv.Common
 import GrinVerif.Model.Crash
 import GrinVerif.Model.CrashCompact
+import GrinVerif.Model.CrashRecov
 /-! Driver glue for the `crash` domain (C09): the real step labels of a scenario are interpreted
 as model steps, the durable state at each crash point is computed by the model and `recover`
 predicts how the node reopens. -/
@@ -13,6 +14,12 @@ structure Scn where
   input : Option Nat
   oldHead : Nat
   labels : List String := []
+  /-- all inputs (header batches, orphan chains) -/
+  inputs : List Nat := []
+  /-- header head of the base state (ahead of the body head when headers were delivered first) -/
+  oldHHead : Nat := 0
+  /-- the restart's crash-point labels, per first crash point -/
+  rlabels : List (Nat × List String) := []
 
 structure St where
   tbl : List BlkInfo := []
@@ -107,6 +114,116 @@ def predictCompacted (st : St) (sc : Scn) (n : Nat) : Option String := do
   | .openFail why => pure s!"open=err:{why.toString}"
   | .ok h => pure s!"open=ok head=b{h}"
 
+/-! ### new scenarios: several acceptances in one input, headers known in advance, head reset -/
+
+def workOf (st : St) (id : Nat) : Nat := ((st.tbl.find? (·.id == id)).map (·.work)).getD 0
+
+/-- base state of a scenario: body on `oldHead`, header chain on `oldHHead` -/
+def baseState (st : St) (sc : Scn) : Option Durable := do
+  let oldPath ← pathOf st.tbl (st.tbl.length + 1) sc.oldHead []
+  let hhPath ← pathOf st.tbl (st.tbl.length + 1) sc.oldHHead []
+  pure { consistent oldPath with dbHHead := sc.oldHHead, hdrHash := hhPath.map (·.id), hdrData := hhPath.map (·.id) }
+
+def isTxStep : Step → Bool
+  | .outHashTrunc | .outHashApp | .outDataTrunc | .outDataApp | .leafRename
+  | .kerHashTrunc | .kerHashApp | .kerDataTrunc | .kerDataApp => true
+  | _ => false
+
+def isHdrStep : Step → Bool
+  | .hdrHashTrunc | .hdrHashApp | .hdrDataTrunc | .hdrDataApp => true
+  | _ => false
+
+/-- the steps of a sequence of acceptances: an LMDB commit that follows txhashset file steps is the
+final commit of the current acceptance (the next acceptance starts), one that follows header MMR
+file steps is the header commit, any other commit changes nothing the model holds -/
+def stepsMulti (labels : List String) (n : Nat) : List (Nat × Step) :=
+  let rec go : List String → Nat → Bool → Bool → List (Nat × Step) → List (Nat × Step)
+    | [], _, _, _, acc => acc.reverse
+    | l :: ls, idx, sawTx, sawHdr, acc =>
+      if l.startsWith "lmdb:after-commit" then
+        if sawTx then go ls (idx + 1) false false ((idx, .finalCommit) :: acc)
+        else if sawHdr then go ls idx false false ((idx, .hdrCommit) :: acc)
+        else go ls idx false false acc
+      else match stepOfLabel l with
+        | some s => go ls idx (sawTx || isTxStep s) (sawHdr || isHdrStep s) ((idx, s) :: acc)
+        | none => go ls idx sawTx sawHdr acc
+  go (labels.take n) 0 false false []
+
+/-- targets of the successive acceptances of `inputs` (blocks), starting from head / header head -/
+def targetsOf (st : St) : List Nat → Nat → Nat → List Target
+  | [], _, _ => []
+  | b :: bs, head, hhead =>
+    match pathOf st.tbl (st.tbl.length + 1) head [], pathOf st.tbl (st.tbl.length + 1) b [] with
+    | some oldPath, some newPath =>
+      let mvHH := workOf st b > workOf st hhead
+      let mvH := workOf st b > workOf st head
+      { newPath, forkLen := commonPrefixLen oldPath newPath, movesHHead := mvHH, movesHead := mvH }
+        :: targetsOf st bs (if mvH then b else head) (if mvHH then b else hhead)
+    | _, _ => []
+
+/-- durable state at the `n`-th crash point of a scenario made of block acceptances -/
+def stateMulti (st : St) (sc : Scn) (n : Nat) : Option Durable := do
+  let d0 ← baseState st sc
+  let ts := targetsOf st sc.inputs sc.oldHead sc.oldHHead
+  (stepsMulti sc.labels n).foldlM (fun d (p : Nat × Step) =>
+    match ts[p.1]? with
+    | some t => some (applyStep t d p.2)
+    | none => none) d0
+
+/-- `Chain::reset_chain_head(target, true)` (chain/src/chain.rs): `extending` rewinds the txhashset
+to the target and syncs the three backends, `header_extending` rewinds and syncs the header MMR,
+then ONE commit stores both heads -/
+def stateReset (st : St) (sc : Scn) (n : Nat) : Option Durable := do
+  let d0 ← baseState st sc
+  let tgt ← sc.inputs.head?
+  let newPath ← pathOf st.tbl (st.tbl.length + 1) tgt []
+  let t : Target := { newPath, forkLen := newPath.length, movesHHead := true, movesHead := true }
+  let total := (sc.labels.filter (·.startsWith "lmdb:after-commit")).length
+  let rec go : List String → Nat → Durable → Durable
+    | [], _, d => d
+    | l :: ls, commits, d =>
+      if l.startsWith "lmdb:after-commit" then
+        if commits + 1 == total then go ls (commits + 1) (applyStep t (applyStep t d .hdrCommit) .finalCommit)
+        else go ls (commits + 1) d
+      else match stepOfLabel l with
+        | some s => go ls commits (applyStep t d s)
+        | none => go ls commits d
+  pure (go (sc.labels.take n) 0 d0)
+
+/-- durable state at the `n`-th crash point (scenarios without compaction) -/
+def stateAt (st : St) (sc : Scn) (n : Nat) : Option Durable :=
+  if sc.kind == "reset" then stateReset st sc n
+  else if sc.kind == "orphans" || sc.oldHHead != sc.oldHead then stateMulti st sc n
+  else do
+    let input ← sc.inputs.getLast?
+    let oldPath ← pathOf st.tbl (st.tbl.length + 1) sc.oldHead []
+    let newPath ← pathOf st.tbl (st.tbl.length + 1) input []
+    let moves := workOf st input > workOf st sc.oldHead
+    let t : Target := { newPath, forkLen := commonPrefixLen oldPath newPath, movesHHead := moves,
+                        movesHead := moves && sc.kind == "block" }
+    pure ((stepsOfLabels sc.labels n).foldl (applyStep t) (consistent oldPath))
+
+def bcAT : Nat → Bool := fun h => decide (h ≥ 6)
+
+def showRec : Rec → String
+  | .openFail why => s!"open=err:{why.toString}"
+  | .ok h => s!"open=ok head=b{h}"
+
+def predictAt (st : St) (sc : Scn) (n : Nat) : Option String := do
+  let d ← stateAt st sc n
+  pure (showRec (recover bcAT st.tbl d))
+
+/-- a second process death at the `m`-th crash point of the restart that follows the `n`-th crash
+point: the model's recovery lists its durable writes, the real labels are walked along them -/
+def predictSecond (st : St) (sc : Scn) (n m : Nat) : Option String := do
+  let d ← stateAt st sc n
+  let rl ← (sc.rlabels.find? (·.1 == n)).map (·.2)
+  let ins := (recoverS bcAT st.tbl d).1
+  let commits := (rl.filter (·.startsWith "lmdb:after-commit")).length
+  match walkLabels (rl.take m) commits ins d with
+  | none => pure "recovery-steps-differ-from-model"
+  | some d2 => pure (showRec (recover bcAT st.tbl d2))
+
 /-- compare on the reopen class and head only -/
 def implClass (impl : String) : String :=
   match splitWs impl with
@@ -123,13 +240,39 @@ def handle (st : St) (args : List String) (impl : String) : St × Verdict :=
     | none => (st, .unknown)
   | "scenario" :: name :: rest =>
     let kind := (kv rest "kind").getD ""
-    let input := (kv rest "input").bind idOf
+    let inputs := (((kv rest "input").getD "-").splitOn ",").filterMap idOf
+    let input := inputs.getLast?
     let old := ((kv (splitWs impl) "old").bind idOf).getD 0
-    ({ st with scns := { name, kind, input, oldHead := old } :: st.scns.filter (·.name != name) }, .ok)
+    let oldhh := ((kv (splitWs impl) "oldhh").bind idOf).getD old
+    ({ st with scns := { name, kind, input, oldHead := old, inputs, oldHHead := oldhh } :: st.scns.filter (·.name != name) }, .ok)
   | ["steps", name, labels] =>
     match st.scns.find? (·.name == name) with
     | some sc => ({ st with scns := { sc with labels := labels.splitOn "," } :: st.scns.filter (·.name != name) }, .ok)
     | none => (st, .unknown)
+  | ["rsteps", name, n, labels] =>
+    match st.scns.find? (·.name == name), n.toNat? with
+    | some sc, some n =>
+      ({ st with scns := { sc with rlabels := (n, labels.splitOn ",") :: sc.rlabels } :: st.scns.filter (·.name != name) }, .ok)
+    | _, _ => (st, .unknown)
+  | ["case2", name, n, m, _label, _label2] =>
+    match st.scns.find? (·.name == name), n.toNat?, m.toNat? with
+    | some sc, some n, some m =>
+      if sc.kind == "compact" then
+        -- compaction scenarios: the restart after a death inside the recovery must end where the
+        -- model's recovery of the first durable state ends (the recovery's own writes are not
+        -- modelled for the compaction files)
+        match pathOf st.tbl (st.tbl.length + 1) sc.oldHead [] with
+        | some oldPath =>
+          (st, cmpModel (predictCompact (fun h => decide (h ≥ 6)) st.tbl oldPath 20 20 10 sc.labels n) (implClass impl))
+        | none => (st, .unknown)
+      else if name.startsWith "compaction" then
+        match predictCompacted st sc n with
+        | some p => (st, cmpModel p (implClass impl))
+        | none => (st, .unknown)
+      else match predictSecond st sc n m with
+        | some p => (st, cmpModel p (implClass impl))
+        | none => (st, .unknown)
+    | _, _, _ => (st, .unknown)
   | ["case", name, n, _label] =>
     match st.scns.find? (·.name == name), n.toNat? with
     | some sc, some n =>
@@ -142,6 +285,10 @@ def handle (st : St) (args : List String) (impl : String) : St × Verdict :=
         | none => (st, .unknown)
       else if name.startsWith "compaction" then
         match predictCompacted st sc n with
+        | some m => (st, cmpModel m (implClass impl))
+        | none => (st, .unknown)
+      else if sc.kind == "orphans" || sc.kind == "reset" || sc.oldHHead != sc.oldHead then
+        match predictAt st sc n with
         | some m => (st, cmpModel m (implClass impl))
         | none => (st, .unknown)
       else match predict st sc n with
